@@ -7,7 +7,7 @@ from harness import sessions
 from harness.sessions import SB
 
 PROP = "C09"
-MODULES = ["CassisModel.Properties.C09", "CassisModel.Properties.C15"]
+MODULES = ["CassisModel.Properties.C09", "CassisModel.Properties.C15", "CassisModel.Properties.C09Doc"]
 THEOREMS = [
     "Cassis.Cas.ids_history",
     "Cassis.Cas.ids_step",
@@ -16,6 +16,9 @@ THEOREMS = [
     "Cassis.Cas.createView_fresh",
     "Cassis.Traverse.findAllFs_nodup",
     "Cassis.Traverse.findAllFs_heap_frame",
+    "Cassis.Xmi.pass1_bounded",
+    "Cassis.Xmi.pass1_fss_ids",
+    "Cassis.Xmi.loadXmi_reseeds",
 ]
 ASSUMPTIONS = [
     "state level (proved): every state reachable from an empty CAS, or from any state with bounded unique ids, keeps xmi:ids (sofas included) and sofaNums pairwise distinct and below the generators",
